@@ -5,6 +5,7 @@
 (*  [id, kind |-> "cov", cov, cap, elig]   unsaturated coverage: 1 if elig <= cap else cap / elig                           *)
 (*  [id, kind |-> "sum", total, parts]     eligible = sum of the targeted compartments                                       *)
 (*  [id, kind |-> "le", a, b]              coverage in force <= saturation level in force at that time                         *)
+(*  [id, kind |-> "close", a, b]           report computed back from the coverage vs the spending in force (relative 1e-8)            *)
 (*  [id, kind |-> "deriv", x0, x1, outcome, dt, lo, hi, haslo, hashi]   derivative parameter: x1 = clip(x0 + outcome * dt)      *)
 EXTENDS Big, Integers, Sequences, TLC, Json, IOUtils, FiniteSets
 Trace == ndJsonDeserialize(IOEnv.TRACE_FILE)
@@ -32,6 +33,7 @@ Failing(e) ==
    IF e.kind = "value" THEN (IF ValueOK(e) THEN {} ELSE {"ProgValue"})
    ELSE IF e.kind = "same" THEN (IF e.a = e.b THEN {} ELSE {"Mismatch"})
    ELSE IF e.kind = "cov" THEN (IF CovOK(e) THEN {} ELSE {"Coverage"})
+   ELSE IF e.kind = "close" THEN (IF SClose(e.a, e.b, K1e8, 64) THEN {} ELSE {"Mismatch"})       \* a derived report (inverse of the coverage function) vs the value in force
    ELSE IF e.kind = "deriv" THEN (IF DerivOK(e) THEN {} ELSE {"Derivative"})
    ELSE IF e.kind = "le" THEN (IF SLe(e.a, SAdd(e.b, Tol(e.b, K1e9, 8))) THEN {} ELSE {"Saturation"})      \* coverage in force never exceeds the saturation level of that year
    ELSE (IF SClose(e.total, SSumSeq(e.parts), K1e9, 8 + Len(e.parts)) THEN {} ELSE {"Eligible"})
